@@ -16,5 +16,13 @@ Stale3bView == [m \in InitMember |-> IF m = 2 THEN {1, 2} ELSE InitMember]
 Stale5View == [m \in InitMember |-> IF m \in {2, 3} THEN 1..3 ELSE 1..5]
 Stale5Unhealthy == [m \in InitMember |-> CASE m = 1 -> {2, 3} [] m = 3 -> {1} [] OTHER -> {}]
 Stale5Approvals == [m \in InitMember |-> CASE m = 1 -> {4, 5} [] m = 2 -> {4, 5} [] m = 4 -> {5} [] OTHER -> {}]
+\* Reduction: the conclusion of a round (Retry / Admit) reads and writes only resp[p] / admitted[p]
+\* (nothing another action reads except Start's and Join's guards, which it can only enable), so it is
+\* taken as soon as it is enabled; every other interleaving is kept.
+Concluded(p) == resp[p].st = "wait" /\ Pending(p) = {}
+NextR == IF \E p \in Pledge : Concluded(p)
+         THEN \E p \in Pledge : Retry(p) \/ Admit(p)
+         ELSE Next
+SpecR == Init /\ [][NextR]_vars
 Stale5Via == [p \in Pledge |-> IF p = 101 THEN {1} ELSE {3}]
 =============================================================================
